@@ -3,19 +3,19 @@
 use super::common::*;
 use crate::engine::*;
 use crate::mach::{i, Emu};
-use crate::rom::{memfd_sparse, ram_bytes_for_code, rom_banks_for_code, RomImage};
+use crate::rom::{fd_path, memfd_sparse, ram_bytes_for_code, rom_banks_for_code, RomImage};
 use serde_json::{json, Value};
 
 pub static DEF: CheckDef = CheckDef {
     id: "C11",
     run,
     replay,
-    rule: "every supported header combination (7 cartridge types x 12 ROM-size codes x 6 RAM-size codes = 504 configurations, each loaded with Core::from_rom_file from a sparse in-memory file of the declared size) x banking-register states (all register-edge values of bank-low x upper x mode, reached by guest writes; plus generated write histories) x every one of the 65536 addresses x {byte read, word read, byte write, word write, stack-order word write} through the five bus helpers, plus OAM DMA from all 256 source pages and the instruction-fetch view of every region. The oracle is survival: a worker that dies by signal/abort, or a Rust panic, is a violation and the progress counter names the access. Non-trivial = distinct (configuration, banking state, access kind) sweeps, each of 65536 addresses.",
+    rule: "every supported header combination (7 cartridge types x 12 ROM-size codes x 6 RAM-size codes = 504 configurations, each loaded with Core::from_rom_file from a sparse in-memory file of the declared size) x banking-register states (all register-edge values of bank-low x upper x mode, reached by guest writes; plus generated write histories) x every one of the 65536 addresses x {byte read, word read, byte write, word write, stack-order word write} through the five bus helpers, plus OAM DMA from all 256 source pages and the instruction-fetch view of every region. File lengths: for 4 cartridge types x 6 ROM-size codes, files of 16 lengths around the declared size (exact, longer, one byte / half a page / one page / several pages / almost a bank / a whole bank short, half the size) go through the loader main() uses; whatever it accepts counts as a loadable file, and then every bank is selected and read across its whole window (a mapping reaching past the end of the file faults there). The oracle is survival: a worker that dies by signal/abort, or a Rust panic, is a violation and the progress counter names the access. Non-trivial = distinct (configuration, banking state, access kind) sweeps, each of 65536 addresses.",
     assumptions: &[
         "builds with overflow checks and debug assertions on (harness release profile sets both)",
         "the test-only constructor Core::with_code_block (4 KiB work RAM) is not a loadable ROM file and is out of scope",
     ],
-    required_classes: &["read", "word-read", "write", "word-write", "push-word", "dma", "fetch-view", "no-ram", "ram-2k", "bank-beyond-size"],
+    required_classes: &["read", "word-read", "write", "word-write", "push-word", "dma", "fetch-view", "no-ram", "ram-2k", "bank-beyond-size", "short-file-rejected", "full-file-loaded"],
     exhaustive: false,
 };
 
@@ -35,6 +35,90 @@ fn make(t: u8, rc: u8, rac: u8) -> i::M {
     let header2 = gbint::system::read_header(&mut file).expect("header");
     let core = Box::new(gbint::emulator::Core::from_rom_file(&mut file, header2));
     i::M { core, header, file }
+}
+
+/// Files of every length around the declared size, through the loader `main` uses: whatever
+/// the loader accepts is a loadable ROM file, and then every ROM bank must be readable to its
+/// last byte (a mapping that reaches past the end of the file faults on access).
+fn file_length_case(rec: &mut Rec, t: u8, rc: u8, rac: u8, len: usize) {
+    let case = json!({"kind": "file-length", "type": t, "rom_code": rc, "ram_code": rac, "length": len});
+    rec.current(&case.to_string());
+    let mut img = RomImage::new(t, 0, rac, 0x00);
+    img.bytes[0x148] = rc;
+    img.fix_checksum();
+    let banks = rom_banks_for_code(rc).unwrap();
+    let f = memfd_sparse(&img.bytes[..0x4000], len);
+    let path = fd_path(&f);
+    let loaded = guarded(|| gbint::verif_load_rom(path));
+    rec.eval(1);
+    let declared = banks * 0x4000;
+    let core = match loaded {
+        Err(msg) => {
+            rec.violation("panic-load", case, format!("the loader panicked on a file of {} bytes declaring {} banks: {}", len, banks, msg));
+            return;
+        }
+        Ok(None) => {
+            rec.class(if len < declared { "short-file-rejected" } else { "file-rejected" }, 1);
+            return;
+        }
+        Ok(Some(core)) => core,
+    };
+    rec.class(if len < declared { "short-file-loaded (judged like any loadable file)" } else { "full-file-loaded" }, 1);
+    rec.nontrivial(fnv(format!("file{}{}{}{}", t, rc, rac, len).as_bytes()));
+    let header = {
+        let mut ff = f.try_clone().expect("dup");
+        gbint::system::read_header(&mut ff).expect("header")
+    };
+    let mut m = i::M { core: Box::new(core), header, file: f };
+    let r = guarded(|| {
+        let mut sum = 0u32;
+        for bank in 0..banks.max(2) {
+            m.write(0x6000, 0);
+            m.write(0x2000, (bank & 0x1f) as u8);
+            m.write(0x4000, (bank >> 5) as u8);
+            if t >= 0x0f {
+                m.write(0x2000, (bank & 0x7f) as u8);
+            }
+            rec.progress(bank as u64);
+            let mut a = 0x4000u32;
+            while a < 0x8000 {
+                sum = sum.wrapping_add(m.read(a as u16) as u32);
+                a += 0x200;
+            }
+            sum = sum.wrapping_add(m.read(0x7fff) as u32).wrapping_add(m.read_word(0x7ffe) as u32);
+            sum = sum.wrapping_add(m.read(0x3fff) as u32).wrapping_add(m.read(0x0000) as u32);
+        }
+        sum
+    });
+    rec.eval(banks as u64 * 36);
+    if let Err(msg) = r {
+        rec.violation("panic-file-length", case, format!("reading the banks of an accepted file of {} bytes (declared {} banks) panicked: {}", len, banks, msg));
+    }
+}
+
+fn file_length_layer(rec: &mut Rec) {
+    let mut idx = 0usize;
+    for t in [0x00u8, 0x01, 0x03, 0x13] {
+        for rc in [0u8, 1, 2, 3, 5, 0x52] {
+            if t == 0 && rc != 0 {
+                continue;
+            }
+            let declared = rom_banks_for_code(rc).unwrap() * 0x4000;
+            let mut lens: Vec<usize> = vec![declared, declared + 1, declared + 0x4000, declared - 1, declared - 0x7ff, declared - 0x800, declared - 0x1000, declared - 0x1001, declared - 0x2000, declared - 0x3000, declared - 0x3fff, declared - 0x4000, declared - 0x4001, declared / 2, 0x8000, 0x4000 + 0x1000];
+            lens.sort();
+            lens.dedup();
+            for len in lens {
+                if len < 0x150 {
+                    continue;
+                }
+                idx += 1;
+                if !rec.ctx.mine(idx) || rec.too_many() {
+                    continue;
+                }
+                file_length_case(rec, t, rc, if t == 0 { 0 } else { 3 }, len);
+            }
+        }
+    }
 }
 
 fn bank_states(quick: bool) -> Vec<Vec<(u16, u8)>> {
@@ -183,6 +267,8 @@ fn run(rec: &mut Rec) {
         run_config(rec, *cfg, &sel, &phases);
         rec.sample(|| case(*cfg, &sel[sel.len() / 2], "read"));
     }
+    // files shorter and longer than they declare, through the loader
+    file_length_layer(rec);
     // generated write histories over the whole address space, then read sweeps
     use proptest::prelude::*;
     let cases = rec.ctx.tier.pick(6u32, 200);
@@ -242,6 +328,16 @@ fn replay(case: &Value, rec: &mut Rec) {
                 configs.push((t, rc, rac));
             }
         }
+    }
+    if case.get("kind").and_then(|k| k.as_str()) == Some("file-length") {
+        let g = |k: &str| case.get(k).and_then(|v| v.as_u64()).unwrap_or(0);
+        let (t, rc, rac) = (g("type") as u8, g("rom_code") as u8, g("ram_code") as u8);
+        if !TYPES.contains(&t) || rom_banks_for_code(rc).is_none() || ram_bytes_for_code(rac).is_none() {
+            rec.inconclusive("replay case names an unsupported configuration");
+            return;
+        }
+        file_length_case(rec, t, rc, rac, g("length") as usize);
+        return;
     }
     if case.get("kind").and_then(|k| k.as_str()) == Some("history") {
         let ci = case.get("config_index").and_then(|v| v.as_u64()).unwrap_or(0) as usize % configs.len();
